@@ -413,6 +413,13 @@ func c14FailureUnits(tier string) []Unit {
 			}
 		}
 	}
+	// cycles found late (DeferAcyclicVerification), also behind exported
+	// constructors and from scopes that do not see them: an error, not a panic
+	ring := alpha{scopes: []int{0, 1, 2}, ctors: []*uFunc{rAB, pB, pDd}, export: true, invokes: []*uFunc{iA, iB}, visualize: true}
+	for _, rec := range []bool{false, true} {
+		units = append(units, Unit{Sc: &Scenario{Name: fmt.Sprintf("deferred-cycles/recover=%v", rec), Cfg: h.Config{Defer: true, Recover: rec},
+			Prefix: prefixFork, Alphabet: ring.ops(), Depth: 5, Budget: explore.Budget{Provides: 3, Invokes: 2, Others: 1, Rejected: 1}, Allowed: onceEach, Monitors: []explore.Monitor{noPanicMonitor}}})
+	}
 	return units
 }
 
